@@ -65,7 +65,7 @@ Proof. now destruct e. Qed.
 Section Proofs.
   Variables (pymodule pyclass pydeser : Type).
   Variable import_module : str -> M pymodule.
-  Variable getattr_ : pymodule -> str -> M pyclass.
+  Variable getattr_ : owner pymodule pyclass -> str -> M pyclass.
   Variable is_type : pyclass -> bool.
   Variable issubclass_ser : pyclass -> M bool.
   Variable get_deserializer : pyclass -> option pydeser.
@@ -95,6 +95,79 @@ Section Proofs.
     resolve_spec pymodule pyclass pydeser (view_module pymodule import_module) (view_attr pymodule pyclass getattr_)
       is_type (view_deserialisable pyclass issubclass_ser implements_from_json) get_deserializer tag.
 
+  (* ---- the hand model of _resolve_enclosing_class meets the Spec's "longest importable prefix, then through classes" *)
+  Notation vmod := (view_module pymodule import_module).
+  Notation vattr := (view_attr pymodule pyclass getattr_).
+  Notation walk_classes := (walk_classes pymodule pyclass getattr_ is_type).
+  Notation try_prefixes := (try_prefixes pymodule pyclass import_module getattr_ is_type).
+  Notation enclosing := (enclosing pymodule pyclass import_module getattr_ is_type).
+  Notation through_classes := (through_classes pymodule pyclass vattr is_type).
+  Notation owner_from := (owner_from pymodule pyclass vmod vattr is_type).
+  Notation owner_of := (owner_of pymodule pyclass vmod vattr is_type).
+
+  Lemma walk_through o names : forall o', o' = o -> walk_classes o' names = Ok (through_classes o names).
+  Proof.
+    revert o. induction names as [|n r IH]; intros o o' ->; [reflexivity|].
+    simpl. unfold view_attr. destruct (getattr_ o n) as [c|e] eqn:E.
+    - destruct (is_type c); [apply IH; reflexivity | reflexivity].
+    - rewrite (Hattr o n e E). reflexivity.
+  Qed.
+
+  (* a dotted prefix of a name that starts with a non-dot character starts with that character: the importer is never
+     asked for "" or for a relative name *)
+  Lemma prefix_head c r k : c <> 46 -> exists tl, join_dots (firstn (S k) (split_dots (c :: r))) = c :: tl.
+  Proof.
+    intros Hc. destruct (split_dots_head c r Hc) as [h [t ->]]. simpl firstn.
+    match goal with |- context [@firstn ?A k t] => destruct (@firstn A k t) as [|x xs] end.
+    - exists h. reflexivity.
+    - exists (h ++ 46 :: join_dots (x :: xs)). reflexivity.
+  Qed.
+
+  Lemma import_found_or_not p c tl : p = c :: tl -> c <> 46 ->
+    (exists md, import_module p = Ok md) \/ import_module p = Exn ModuleNotFoundError.
+  Proof.
+    intros -> Hc. destruct (import_module (c :: tl)) as [md|e] eqn:E; [left; eauto|right].
+    destruct (Himp _ _ E) as [->|[[_ H]|[_ H]]]; [reflexivity|discriminate|].
+    change (str_startswith (c :: tl) [DOT]) with (Z.eqb DOT c && true) in H.
+    apply andb_true_iff in H as [H _]. apply Z.eqb_eq in H. unfold DOT in H. congruence.
+  Qed.
+
+  Lemma try_prefixes_owner_from c r k :
+    c <> 46 -> try_prefixes (split_dots (c :: r)) k = Ok (owner_from (split_dots (c :: r)) k).
+  Proof.
+    intros Hc. induction k as [|k IH]; [reflexivity|].
+    destruct (prefix_head c r k Hc) as [tl Hp].
+    cbn [Resolve.try_prefixes ResolveSpec.owner_from]. unfold view_module at 1.
+    destruct (import_found_or_not _ c tl Hp Hc) as [[md Hm]|Hm]; rewrite Hm.
+    - apply walk_through. reflexivity.
+    - simpl pyexn_isa. cbv iota. exact IH.
+  Qed.
+
+  (* the owner-resolution step of the chain, for a well-formed owner part *)
+  Lemma owner_step (B : Type) m (K : owner pymodule pyclass -> outcome jerr B) :
+    negb (str_truthy m) || str_startswith m [46] = false ->
+    catchM_or (mapM OMod (import_module m)) ModuleNotFoundError
+      (fun k => match enclosing m with Ok (Some x) => k x | Ok None => RaiseJ UnknownModuleError | Exn e => RaiseF e end) K
+    = match owner_of m with Some o => K o | None => RaiseJ UnknownModuleError end.
+  Proof.
+    intros Hg. destruct m as [|c r]; [discriminate|].
+    assert (Hc : c <> 46).
+    { change (negb (str_truthy (c :: r)) || str_startswith (c :: r) [46]) with (Z.eqb 46 c && true) in Hg.
+      intros ->. discriminate. }
+    unfold ResolveSpec.owner_of, Resolve.enclosing.
+    set (names := split_dots (c :: r)).
+    assert (Hlen : exists l, length names = S l).
+    { pose proof (split_dots_nonempty (c :: r)) as Hn. fold names in Hn. destruct names; [contradiction|]. simpl. eauto. }
+    destruct Hlen as [l Hl]. rewrite Hl. replace (S l - 1)%nat with l by (simpl; rewrite Nat.sub_0_r; reflexivity).
+    cbn [ResolveSpec.owner_from]. rewrite <- Hl, firstn_all, skipn_all.
+    replace (join_dots names) with (c :: r) by (unfold names; symmetry; apply join_split_dots).
+    unfold view_module at 1. cbn [ResolveSpec.through_classes].
+    destruct (import_found_or_not (c :: r) c r eq_refl Hc) as [[md Hm]|Hm]; rewrite Hm; unfold catchM_or, mapM.
+    - reflexivity.
+    - simpl pyexn_isa. cbv iota. unfold names. rewrite (try_prefixes_owner_from c r l Hc).
+      reflexivity.
+  Qed.
+
   (* leaves and arrays never reach the tag logic *)
   Lemma chain_leaf data :
     match data with JObj _ | JArr _ => False | _ => True end -> chain data = Return FJ_ReturnData.
@@ -121,19 +194,15 @@ Section Proofs.
     rewrite module_part_ok_spec, negb_involutive.
     destruct (negb (str_truthy m) || str_startswith m [46]) eqn:Eg; [reflexivity|].
     cbv iota.
-    unfold view_module.
-    destruct (import_module m) as [md|e] eqn:Ei.
-    - unfold view_attr. destruct (getattr_ md n) as [c|e] eqn:Ea.
-      + destruct (is_type c) eqn:Et; simpl negb; cbv iota; [|reflexivity].
-        destruct Hsub as [_ Hs]. destruct (Hs c Et) as [b Hb].
-        unfold bindM, view_subclass. rewrite Hb.
-        destruct b; [reflexivity|].
-        unfold call_opt. destruct (get_deserializer c); reflexivity.
-      + rewrite (Hattr md n e Ea). reflexivity.
-    - destruct (Himp m e Ei) as [->|[[-> ->]|[-> Hd]]].
-      + reflexivity.
-      + discriminate Eg.
-      + apply orb_false_iff in Eg as [_ Eg]. change [DOT] with [46] in Hd. congruence.
+    rewrite (owner_step _ m _ Eg).
+    destruct (owner_of m) as [o|]; [|reflexivity].
+    unfold catchM, view_attr. destruct (getattr_ o n) as [c|e] eqn:Ea.
+    - destruct (is_type c) eqn:Et; simpl negb; cbv iota; [|reflexivity].
+      destruct Hsub as [_ Hs]. destruct (Hs c Et) as [b Hb].
+      unfold bindM, view_subclass. rewrite Hb.
+      destruct b; [reflexivity|].
+      unfold call_opt. destruct (get_deserializer c); reflexivity.
+    - rewrite (Hattr o n e Ea). reflexivity.
   Qed.
 
   Lemma chain_spec_absent : chain_spec None = chain_spec (Some JNull).
@@ -165,8 +234,8 @@ Section Proofs.
     destruct t; try reflexivity.
     destruct (split_last_dot s) as [[m n]|]; [|reflexivity].
     destruct (negb (module_part_ok m)); [reflexivity|].
-    destruct (view_module pymodule import_module m) as [md|]; [|reflexivity].
-    destruct (view_attr pymodule pyclass getattr_ md n) as [c|]; [|reflexivity].
+    destruct (owner_of m) as [o|]; [|reflexivity].
+    destruct (view_attr pymodule pyclass getattr_ o n) as [c|]; [|reflexivity].
     destruct (negb (is_type c)); [reflexivity|].
     unfold view_deserialisable.
     destruct (view_subclass pyclass issubclass_ser c); simpl.
@@ -207,8 +276,8 @@ Section Proofs.
   (* never a wrongly typed object: a class is only ever handed the document when the tag names it *)
   Lemma resolve_class_named data c :
     resolve data = Return (FJ_CallClass c) ->
-    exists d s m n md, data = JObj d /\ dict_get d JSON_TYPE_NAME = Some (JStr s) /\ s = m ++ 46 :: n /\ no_sep 46 n = true /\
-      import_module m = Ok md /\ getattr_ md n = Ok c /\ is_type c = true /\ issubclass_ser c = Ok true.
+    exists d s m n o, data = JObj d /\ dict_get d JSON_TYPE_NAME = Some (JStr s) /\ s = m ++ 46 :: n /\ no_sep 46 n = true /\
+      owner_of m = Some o /\ getattr_ o n = Ok c /\ is_type c = true /\ issubclass_ser c = Ok true.
   Proof.
     unfold resolve. fold chain.
     destruct data as [| | | | |l|d]; try (rewrite chain_leaf by exact I; discriminate).
@@ -220,14 +289,14 @@ Section Proofs.
     rewrite split_last_dot_rsplit1.
     destruct (rsplit1 46 s) as [[m n]|] eqn:Es; [|discriminate].
     destruct (negb (module_part_ok m)); [discriminate|].
-    unfold view_module. destruct (import_module m) as [md|] eqn:Ei; [|discriminate].
-    unfold view_attr. destruct (getattr_ md n) as [c'|] eqn:Ea; [|discriminate].
+    destruct (owner_of m) as [o|] eqn:Eo; [|discriminate].
+    unfold view_attr. destruct (getattr_ o n) as [c'|] eqn:Ea; [|discriminate].
     destruct (is_type c') eqn:Ety; [|discriminate]. simpl negb. cbv iota.
     unfold view_subclass. destruct (issubclass_ser c') as [[|]|] eqn:Esub; simpl.
     - intros H. assert (c' = c).
       { destruct (implements_from_json c'); [congruence|]. destruct base_from_json_body; congruence. }
       subst c'. apply rsplit1_some in Es as [-> Hn].
-      exists d, (m ++ 46 :: n), m, n, md. repeat split; auto.
+      exists d, (m ++ 46 :: n), m, n, o. repeat split; auto.
     - destruct (get_deserializer c'); discriminate.
     - destruct (get_deserializer c'); discriminate.
   Qed.
@@ -235,7 +304,7 @@ End Proofs.
 
 (* ---- regression example for the former finding C19-b: the base class itself (or any subclass without _from_json) *)
 Definition w_import (s : str) : M Z := if str_eqb s [107] then Ok 1 else Exn ModuleNotFoundError.   (* module "k" *)
-Definition w_getattr (m : Z) (n : str) : M Z := if str_eqb n [83] then Ok 2 else Exn AttributeError.  (* attribute "S" *)
+Definition w_getattr (o : owner Z Z) (n : str) : M Z := if str_eqb n [83] then Ok 2 else Exn AttributeError.  (* attribute "S" *)
 Definition w_data : jv := JObj [(JSON_TYPE_NAME, JStr [107; 46; 83])].                               (* tag "k.S" *)
 
 Lemma abstract_base_documented :
